@@ -58,9 +58,10 @@ func (r *rwRT) ruleTmplRange() {
 				val, valRef := mkVar(vvar, "v")
 				bodyRef, _ := r.heapNode(st, "BlockStmt", map[string]AV{"List": leafSym("n.Body.List")})
 				nRef, _ := r.heapNode(st, "RangeStmt", map[string]AV{"Key": key, "Value": val, "Tok": r.tokConst(tok), "X": exprLeaf(r, "n.X"), "Body": bodyRef})
-				in := r.interp(rwConfig{root: fn, boundaries: map[string]bool{"gensym": true}})
+				gen := r.nameGenerator()
+				in := r.interp(rwConfig{root: fn, boundaries: map[string]bool{gen.Name(): true}})
 				in.OnCall = wrapOnCall(in.OnCall, func(cc *CallCtx) []Answer {
-					if cc.Fn != nil && cc.Fn.Name() == "gensym" && inRw(cc.Fn) {
+					if cc.Fn != nil && bodyOf(cc.Fn) == gen {
 						return []Answer{{Ret: []AV{Sym{Name: "gensym()"}}, Label: "gensym"}}
 					}
 					return nil
